@@ -258,6 +258,44 @@ func evalConversion(rep sink, conv string, v backendValue, form int, bareKind st
 	return
 }
 
+// evalJoinedContext is CV3 for a context error that comes together with another backend condition — what a caller gets
+// when an operation is abandoned because its context ended (ctx.Err() joined with, or wrapping, the backend's own error):
+// the cancellation / deadline must not be reclassified as the other condition's kind.
+func evalJoinedContext(rep sink, conv string, ctxID string, ctxErr error, v backendValue, shape int, verbose bool) {
+	f := converters[conv]
+	var in error
+	switch shape {
+	case 0:
+		in = errors.Join(ctxErr, v.mk())
+	case 1:
+		in = errors.Join(v.mk(), ctxErr)
+	default:
+		in = fmt.Errorf("%w: %w", ctxErr, v.mk())
+	}
+	shapeName := []string{"Join(ctx,value)", "Join(value,ctx)", "%w: %w"}[shape]
+	sp := spec{Family: "CVJ", Converter: conv, Value: ctxID + "+" + v.id, Form: shapeName, Text: in.Error()}
+	defer func() {
+		if p := recover(); p != nil {
+			sp.Note = fmt.Sprintf("panic: %v", p)
+			rep.Violation(fmt.Sprintf("convert:%s:panic:%s+%s", conv, ctxID, v.id), sp)
+		}
+	}()
+	r := f(in)
+	sp.Back = fmt.Sprint(r)
+	want := idxCancelled
+	if ctxID == "context.DeadlineExceeded" {
+		want = idxTimeout
+	}
+	mask, _ := recognised(r)
+	if verbose {
+		fmt.Printf("REPLAY %s(%s of %s and %s = %q) = %q  kinds=%s\n", conv, shapeName, ctxID, v.id, in, fmt.Sprint(r), kindSetName(r))
+	}
+	if r == nil || mask&(1<<uint(want)) == 0 {
+		sp.Note = "a context error that comes together with another condition came out as " + kindSetName(r)
+		rep.Violation(fmt.Sprintf("convert:%s:context-error-reclassified:%s+%s", conv, ctxID, v.id), sp)
+	}
+}
+
 func runConverters(rep sink) cvResult {
 	res := cvResult{table: map[string]map[string]string{}, values: len(backendValues)}
 	classes := map[string]bool{}
@@ -286,6 +324,24 @@ func runConverters(rep sink) cvResult {
 			}
 		}
 	}
+	// CV3 for joined values
+	for _, conv := range converterOrder {
+		for _, cx := range []struct {
+			id string
+			e  error
+		}{{"context.Canceled", context.Canceled}, {"context.DeadlineExceeded", context.DeadlineExceeded}} {
+			for _, v := range backendValues {
+				if v.id == "context.Canceled" || v.id == "context.DeadlineExceeded" {
+					continue
+				}
+				for shape := 0; shape < 3; shape++ {
+					res.evals++
+					res.distinct++
+					evalJoinedContext(rep, conv, cx.id, cx.e, v, shape, false)
+				}
+			}
+		}
+	}
 	res.table["percent_w_changes_kind"] = map[string]string{}
 	for _, s := range pw {
 		res.table["percent_w_changes_kind"][s] = "observed, not a violation (CV2)"
@@ -301,6 +357,23 @@ func runConverters(rep sink) cvResult {
 func replayConverter(rep sink, sp spec) {
 	if _, ok := converters[sp.Converter]; !ok {
 		rep.EngineError("unknown converter %q", sp.Converter)
+		return
+	}
+	if sp.Family == "CVJ" {
+		for shape, n := range []string{"Join(ctx,value)", "Join(value,ctx)", "%w: %w"} {
+			for _, cx := range []struct {
+				id string
+				e  error
+			}{{"context.Canceled", context.Canceled}, {"context.DeadlineExceeded", context.DeadlineExceeded}} {
+				for _, v := range backendValues {
+					if n == sp.Form && cx.id+"+"+v.id == sp.Value {
+						evalJoinedContext(rep, sp.Converter, cx.id, cx.e, v, shape, true)
+						return
+					}
+				}
+			}
+		}
+		rep.EngineError("unknown joined value/form %q/%q", sp.Value, sp.Form)
 		return
 	}
 	form := -1
